@@ -314,6 +314,16 @@ def gen_c11(tier, rng):
                 for idx, s in enumerate(sent):
                     if (idx + 1) % per == 0:
                         cuts.append(s["start"] + s["len"] - 1)
+                if c % 3 == 2 and kind == "ascii":
+                    # reads that do not respect frame boundaries: fixed-size reads / random cuts through the valid traffic.
+                    # Only on the ASCII framing, whose frames carry their own start and end marks: a byte-stream receiver of RTU (no
+                    # inter-frame timing here) or of the brace-delimited binary framing finds a frame start again only at the
+                    # beginning of a read, which is why C11 quantifies over "one per read and several per read"
+                    if rng.random() < 0.5:
+                        size = rng.choice([1, 3, 7, 16, 64])
+                        cuts = [x for x in cuts if x <= len(g)] + list(range(len(g) + rng.randint(1, size), len(data), size))
+                    else:
+                        cuts = [x for x in cuts if x <= len(g)] + [rng.randint(len(g) + 1, len(data) - 1) for _ in range(rng.randint(5, 60))]
                 cuts = sorted(set(c for c in cuts if 0 < c < len(data)))
                 traces.append(run_stream("n%d" % k, "c11", kind, d, data, sent, cuts, [1], False, g=len(g)))
                 traces[-1]["gkind"] = gk
